@@ -34,10 +34,11 @@ type Symbols struct {
 	Types    map[string]map[string]string            // pkg -> name -> shape
 	Loose    map[string]map[string]string            // pkg -> name -> shape without member names
 	Sketch   map[string][]uint32                     // "pkg.Name" / "pkg.Type.Name" -> body sketch
+	Callers  map[string][]string                     // function (display name) -> module functions calling it statically
 }
 
 func newSymbols() *Symbols {
-	return &Symbols{Funcs: map[string]map[string]string{}, Methods: map[string]map[string]map[string]string{}, Fields: map[string]map[string]map[string]string{}, FieldIdx: map[string]map[string]map[string]int{}, Types: map[string]map[string]string{}, Loose: map[string]map[string]string{}, Sketch: map[string][]uint32{}}
+	return &Symbols{Funcs: map[string]map[string]string{}, Methods: map[string]map[string]map[string]string{}, Fields: map[string]map[string]map[string]string{}, FieldIdx: map[string]map[string]map[string]int{}, Types: map[string]map[string]string{}, Loose: map[string]map[string]string{}, Sketch: map[string][]uint32{}, Callers: map[string][]string{}}
 }
 
 func parseSketch(s string) []uint32 {
@@ -56,6 +57,10 @@ func Load() *Symbols {
 	for _, l := range strings.Split(symbolsText, "\n") {
 		parts := strings.Split(l, " | ")
 		if len(parts) < 2 {
+			continue
+		}
+		if strings.HasPrefix(l, "C ") {
+			s.Callers[strings.TrimPrefix(parts[0], "C ")] = strings.Split(parts[1], " ; ")
 			continue
 		}
 		f := strings.Fields(parts[0])
@@ -408,8 +413,97 @@ func Generate(pkgs []*packages.Package, excluded func(string) bool) string {
 			}
 		}
 	}
+	for callee, callers := range callersOf(pkgs, excluded) {
+		out = append(out, fmt.Sprintf("C %s | %s", callee, strings.Join(callers, " ; ")))
+	}
 	sort.Strings(out)
 	return strings.Join(out, "\n") + "\n"
+}
+
+const modPath = "github.com/lightninglabs/neutrino"
+
+// DisplayName spells a function the way the rule tables do:
+// "neutrino.f", "(*headerfs.blockHeaderStore).WriteHeaders",
+// "(*cache/lru.Cache[K, V]).Put".
+func DisplayName(f *types.Func) string {
+	f = f.Origin()
+	rel := func(p *types.Package) string {
+		if p == nil {
+			return ""
+		}
+		if p.Path() == modPath {
+			return "neutrino"
+		}
+		return strings.TrimPrefix(p.Path(), modPath+"/")
+	}
+	sig, _ := f.Type().(*types.Signature)
+	if sig == nil || sig.Recv() == nil {
+		return rel(f.Pkg()) + "." + f.Name()
+	}
+	t := sig.Recv().Type()
+	star := ""
+	if p, ok := t.(*types.Pointer); ok {
+		star, t = "*", p.Elem()
+	}
+	name := types.TypeString(t, func(p *types.Package) string { return rel(p) })
+	return "(" + star + name + ")." + f.Name()
+}
+
+// callersOf: static calls between module functions (function literals are
+// attributed to the declared function they are written in).
+func callersOf(pkgs []*packages.Package, excluded func(string) bool) map[string][]string {
+	mod := map[*types.Package]bool{}
+	for _, pk := range pkgs {
+		mod[pk.Types] = true
+	}
+	set := map[string]map[string]bool{}
+	for _, pk := range pkgs {
+		for _, f := range pk.Syntax {
+			if excluded(pk.Fset.Position(f.Pos()).Filename) {
+				continue
+			}
+			for _, d := range f.Decls {
+				fd, ok := d.(*ast.FuncDecl)
+				if !ok || fd.Body == nil {
+					continue
+				}
+				caller, _ := pk.TypesInfo.Defs[fd.Name].(*types.Func)
+				if caller == nil {
+					continue
+				}
+				ast.Inspect(fd.Body, func(n ast.Node) bool {
+					var id *ast.Ident
+					switch x := n.(type) {
+					case *ast.Ident:
+						id = x
+					case *ast.SelectorExpr:
+						id = x.Sel
+					}
+					if id == nil {
+						return true
+					}
+					callee, _ := pk.TypesInfo.Uses[id].(*types.Func)
+					if callee == nil || !mod[callee.Pkg()] || callee.Origin() == caller {
+						return true
+					}
+					k := DisplayName(callee)
+					if set[k] == nil {
+						set[k] = map[string]bool{}
+					}
+					set[k][DisplayName(caller)] = true
+					return true
+				})
+			}
+		}
+	}
+	out := map[string][]string{}
+	for k, m := range set {
+		for c := range m {
+			out[k] = append(out[k], c)
+		}
+		sort.Strings(out[k])
+	}
+	return out
 }
 
 // Renames is the result of matching the baseline against the current tree.
